@@ -153,6 +153,12 @@ func c14ConcHarness(cached *gwHarness, want map[string]string, c1, c2 []int, ttl
 			client := func(ops []int) func() {
 				return func() {
 					for _, l := range ops {
+						if l < 0 {
+							// the clock jumps past the TTL while the other client's request may be under way
+							vrt.Touch("clock")
+							vrt.AdvanceClock(ttl + time.Second)
+							continue
+						}
 						_, b := cached.fed.Post(c14Pool[l].body(), "application/json")
 						var v interface{}
 						json.Unmarshal(b, &v)
@@ -195,7 +201,7 @@ func init() {
 		ID: "C14",
 		Rule: "sequential: every request history of length <=3 (thorough 4) over an alphabet of 26 operations built to collide in the cache key (pairs differing only in operation type, name, variable type, variable default, variable value, " +
 			"fragment body, named fragment type condition, alias, selected operation of a two-operation document, explicit vs injected id, variable present vs omitted, introspection by variable with two values, @skip on a field of another service driven by a variable with both values, one entity looked up twice with different selections; one unrelated) plus `tick` (clock jumps past the TTL), for TTL in {0, 1s, 1h}; each history is replayed on a fresh caching gateway and on a plain twin under the virtual clock " +
-			"and every answer compared. concurrent: two clients with 1-2 requests each from the pool on one caching gateway, every schedule with <=1 (thorough 2) preemption at client granularity (RWMutex operations visible), each answer compared with the plain twin's; " +
+			"and every answer compared. concurrent: two clients with 1-2 requests each from the pool on one caching gateway (also with a clock jump past the TTL before the second client's request, so that the first one's request straddles the expiry), every schedule with <=1 (thorough 2) preemption at client granularity (RWMutex operations visible), each answer compared with the plain twin's; " +
 			"non-trivial = history with a repeated or colliding key",
 		Assumptions: []string{"virtual clock owned by vrt (1ms passes between requests)", "subscriptions interleaved with queries are exercised by the C17/C18 harness, not here",
 			"answers of the concurrent part must not depend on order: the mutation appears at most once per scenario"},
@@ -272,6 +278,12 @@ func init() {
 				}
 			}
 			pairs = append(pairs, [2][]int{{idx("q-both"), idx("cross")}, {idx("cross"), idx("q-both")}}, [2][]int{{idx("frag-name"), idx("frag-name")}, {idx("frag-phone"), idx("frag-name")}})
+			// one client's request straddles the expiry: the other client's clock jump and request fall between its planning and its answer
+			for _, n1 := range []string{"cross", "frag-phone", "same-node-two-selections"} {
+				for _, n2 := range []string{"q-both", "cross", "alias-a"} {
+					pairs = append(pairs, [2][]int{{idx(n1)}, {-1, idx(n2)}})
+				}
+			}
 			for _, p := range pairs {
 				p := p
 				for _, ttl := range []time.Duration{0, time.Hour} {
